@@ -125,7 +125,8 @@ def cases(tier, seed, shard, nshards):
                "dup": rng.random() < 0.35,
                # managers whose exit is a staticmethod / classmethod (a class-level resource), callbacks registered
                # without any arguments: the flavours still agree
-               "bind": rng.choice(["method", "method", "static", "class"]), "noargs": rng.random() < 0.3}
+               "bind": rng.choice(["method", "method", "static", "class"]), "noargs": rng.random() < 0.3,
+               "enter_exc": rng.choice(["EnterFailed", "AttributeError", "TypeError", "LookupError"])}
 
 
 def _vectors(nsrc, nfn, rng, maxvec):
@@ -226,11 +227,16 @@ def run_exitstack(case, stats):
     class EnterFailed(Exception):
         pass
 
+    ENTER_EXC = {"EnterFailed": EnterFailed, "AttributeError": AttributeError, "TypeError": TypeError,
+                 "LookupError": LookupError}
+    ENTER_TYPES = tuple(ENTER_EXC.values())
+
     def make_cm(i, beh, fl):
         def enter():
             CTX.ev("cm-enter", i)
             if beh.startswith("enter_raises"):
-                raise EnterFailed(i)
+                # (what the enter fails with: also the very exception types a library's own protocol probing may catch)
+                raise ENTER_EXC[case.get("enter_exc", "EnterFailed")](f"enter {i} failed")
             # (what a manager's enter gives may itself happen to be awaitable - a handle, a future: the stack hands it on)
             return AwaitablePayload(("cm", i))
 
@@ -314,8 +320,8 @@ def run_exitstack(case, stats):
                                     value = await stack.enter_context(cm)
                                     CTX.ev("entered", i, value)
                                     stack.push(cm)
-                            except EnterFailed:
-                                if not case.get("catch_enter"):
+                            except ENTER_TYPES as err:
+                                if not case.get("catch_enter") or not str(err).startswith("enter "):
                                     raise
                                 CTX.ev("enter-failure-handled", i)
                             continue
